@@ -165,7 +165,11 @@ func (c *fromCtx) node(v reflect.Value) *ref.Node {
 		if l == nil {
 			return &ref.Node{Kind: ref.Null}
 		}
+		if n, ok := c.memo[unsafe.Pointer(l)]; ok {
+			return n
+		}
 		n := &ref.Node{Kind: ref.List}
+		c.memo[unsafe.Pointer(l)] = n
 		for e := l.Front(); e != nil; e = e.Next() {
 			n.Elems = append(n.Elems, c.node(reflect.ValueOf(e.Value)))
 		}
